@@ -77,7 +77,7 @@ impl<T: Qcow2IoOps> Qcow2Dev<T> {
     /// if some new cluster has been zeroed after the last completed
     /// whole-file sync was submitted
     #[inline]
-    fn zeroing_unsynced(&self) -> bool {
+    pub(crate) fn zeroing_unsynced(&self) -> bool {
         self.synced_zeroed_clusters.load(Ordering::Relaxed)
             < self.zeroed_clusters.load(Ordering::Relaxed)
     }
